@@ -163,10 +163,94 @@ def confirm_alias(p, obj, legacy):
     return None
 
 
+_PRISTINE = {'pid': None}
+
+
+def pristine():
+    """Make this process hold a freshly imported pamqp that has never been
+    used.  Histories run in forked children of it: each child starts from
+    exactly that state (copy-on-write), which costs 2 ms instead of the 33 ms
+    of importing the library again, and nothing a history does can reach the
+    next one."""
+    if _PRISTINE['pid'] != os.getpid() or not _PRISTINE.get('clean'):
+        libstate.fresh_import()
+        _PRISTINE.update(pid=os.getpid(), clean=True)
+
+
 def run_history(ctx, hist, check_state=None):
-    """Fresh import, replay `hist` (event indices); compare every event with
-    its fresh-interpreter baseline.  Returns (state hash, ok)."""
-    p = libstate.fresh_import()
+    """Run one history in a forked child of the pristine process and fold
+    what it observed into ctx.  Returns (state hash, legacy, ok)."""
+    import pickle
+    import select
+    pristine()
+    r, w = os.pipe()
+    pid = os.fork()
+    if pid == 0:
+        code = 0
+        try:
+            os.close(r)
+            child = type(ctx)(ctx.prop_id, ctx.tier, ctx.seed)
+            try:
+                ret = _run_history_here(child, hist, fresh=False)
+                payload = ('ok', ret, child.export())
+            except BaseException as exc:  # noqa
+                import traceback
+                payload = ('error', repr(exc), traceback.format_exc()[-1500:])
+            with os.fdopen(w, 'wb') as fh:
+                pickle.dump(payload, fh)
+        except BaseException:  # noqa
+            code = 3
+        finally:
+            os._exit(code)
+    os.close(w)
+    chunks = []
+    deadline = 180
+    try:
+        while True:
+            ready, _, _ = select.select([r], [], [], deadline)
+            if not ready:
+                os.kill(pid, 9)
+                break
+            data = os.read(r, 1 << 16)
+            if not data:
+                break
+            chunks.append(data)
+    finally:
+        os.close(r)
+        try:
+            os.waitpid(pid, 0)
+        except ChildProcessError:
+            pass
+    names = [EVENTS[i][0] for i in hist]
+    try:
+        payload = pickle.loads(b''.join(chunks))
+    except Exception:  # noqa
+        ctx.violation('history-hang|{}'.format(hist),
+                      'the history {} did not finish within {} s (or its '
+                      'process died)'.format(names, deadline),
+                      {'kind': 'hist', 'hist': list(hist)}, 'results',
+                      'no result')
+        return 'no-result', False, False
+    if payload[0] != 'ok':
+        raise RuntimeError('history child failed: %s\n%s' % payload[1:])
+    _tag, ret, exp = payload
+    ctx.transitions += exp['transitions']
+    ctx.validated += exp['validated']
+    ctx.outcomes.update(exp['outcomes'])
+    ctx.counters.update(exp['counters'])
+    for v in exp['violations']:
+        ctx.violation(v['fingerprint'], v['message'], v['case'],
+                      v['expected'], v['observed'])
+    ctx.nviolations += max(0, exp['nviolations'] - len(exp['violations']))
+    for c in exp['caps']:
+        ctx.cap(c)
+    return ret
+
+
+def _run_history_here(ctx, hist, fresh=True):
+    """Replay `hist` (event indices) in this process; compare every event
+    with its fresh-interpreter baseline.  Returns (state hash, legacy, ok)."""
+    p = libstate.fresh_import() if fresh else lib.pamqp()
     logging.disable(logging.CRITICAL)
     import decimal
     decimal.setcontext(decimal.Context())   # fresh-interpreter environment
@@ -688,6 +772,7 @@ def explore_schedules(ctx, h, shard, bound, cold=False):
                               'same results', 'different results')
         elif a.choices != b.choices or a.choices != last[0]:
             ctx.count('self_test_replays_with_other_points')
+    runner.close()
     return seen_outcomes
 
 
@@ -729,7 +814,7 @@ def replay(case, ctx):
     if case['kind'] == 'reentrant':
         reentry.explore(ctx, case['outer'])
     elif case['kind'] == 'hist':
-        run_history(ctx, tuple(case['hist']))
+        _run_history_here(ctx, tuple(case['hist']))
     elif case['kind'] == 'sched':
         h = case['h']
         name, bodies = HARNESSES[h][:2]
